@@ -1,14 +1,31 @@
 """C08 - send back-pressure is applied, bounded, and always released.
 
-An application writes N chunks of 16 KiB (N in {4, 16, 64}: 64 KiB .. 1 MiB) while the client accepts
-nothing (transport not reading, or HTTP/2 window exhausted and no credit).  A *release* event
-(WINDOW_UPDATE, transport resume, RST_STREAM, client EOF, reset, failed write, shutdown) is a separate
-source, so Explorer A injects it at every point at which a send can be waiting - mid-body and on the
-final end-of-body drain.  A sibling HTTP/2 stream and a second connection must keep progressing.
+An application writes N pieces while the client accepts nothing (transport not reading, or HTTP/2 window
+exhausted and no credit).  A *release* event is a separate source, so Explorer A injects it at every point at
+which a send can be waiting - mid-body and on the final end-of-body drain.  A sibling HTTP/2 stream and a second
+connection must keep progressing.  Three scenario families:
+
+A  placement   N in {1, 4, 16, 64} chunks of 16 KiB (16 KiB .. 1 MiB) on h1 / h2 / ws-over-h2, the client stalled
+               before the request; releases: WINDOW_UPDATE, transport resume, RST_STREAM, client EOF, reset, failed
+               write, shutdown.  Full (M, S) bounds: the release lands at every boundary.  (Quick tier: sizes whose
+               executions cannot differ from N=16 are left to the thorough tier, see _same_as_n16.)
+B  close       the SERVER decides to close while a write is blocked at the socket level: client GOAWAY, a
+               malformed HTTP/2 frame (connection error: GOAWAY + close), a malformed pipelined HTTP/1 request
+               (not a release: a response in flight is never truncated), and a stall that begins after the
+               response head ("midpause": the application is parked on a gate, the peer stops reading, the gate
+               opens) so that on trio the socket write is held by the HTTP/2 send task and the application's sends
+               queue behind it in the stream buffer.  Also WebSocket-over-HTTP/1.  Single path per order of the
+               sources (M=0): the stall is established at quiescence, the interleaving is not the point (only
+               h2 / pause / GOAWAY gets the full quick bounds).
+C  piece size  the same response written in SMALL pieces (1000 B x 400 and 512 B x 640 in the quick tier: 2.4x /
+               2x BOUND, so a response that is buffered whole is seen whatever the size) on h1 (chunked), ws-over-h1
+               (one message per piece), h2 and ws-over-h2 (the application yields after each piece, so every piece is
+               its own small DATA frame) against a transport that does not read or a closed window.  M=0.
 
 Oracle (black box)
   held-exceeds-bound   at a quiescent point: bytes submitted through send() minus body bytes the client has
-                       received > BOUND (a constant, independent of N) while the client grants nothing
+                       received > BOUND (a constant, independent of N and of the piece size) while the client
+                       grants nothing
   sibling-blocked      the sibling stream / the other connection did not complete
   send-never-released  after the release event, at final quiescence a send() is still pending
   not-delivered        pressure was lifted (credit / resume) but the response did not complete
@@ -19,23 +36,36 @@ from typing import Any, List
 
 import h2.settings
 
-from mc.clients import OP_BIN, h1_request, h2_request_headers, make_client, ws_frame, ws_h2_headers
+from mc.clients import (OP_BIN, h1_request, h2_request_headers, make_client, raw_h2_frame, ws_frame, ws_h1_handshake,
+                        ws_h2_headers)
 from mc.explore import V
 from mc.harness import internal_errors, std_execute
 
 ID = "C08"
 LEVEL = "model_checking"
-TECHNIQUE = ("stateless deviation-bounded exploration of release events against continuous application writes on the "
-             "real H2Protocol/StreamBuffer/TCPServer; black-box held-bytes monitor at every quiescent point")
-RULE = ("scenario = engine x carrier(h1,h2,ws/h2) x N chunks x pressure kind x release kind; release event injected at "
-        "every boundary within (M,S) bounds; non-trivial = instance ran and non-default choice taken; distinct by "
+TECHNIQUE = ("stateless deviation-bounded exploration of release events (credit, resume, reset, EOF, failed write, "
+             "client GOAWAY, connection error, shutdown) against continuous application writes of several piece "
+             "sizes on the real H11Protocol/H2Protocol/StreamBuffer/WSStream/TCPServer; black-box held-bytes "
+             "monitor at every quiescent point")
+RULE = ("scenario = engine x carrier(h1,ws/h1,h2,ws/h2) x N pieces x piece size x pressure kind(transport stalled "
+        "before the request | after the response head | window 0) x release kind; release event injected at every "
+        "boundary within (M,S) bounds; non-trivial = instance ran and non-default choice taken; distinct by "
         "observation digest")
 ASSUMPTIONS = [
     "BOUND = 160 KiB covers the documented buffers (HTTP/2 stream buffer high-water 32 KiB + asyncio transport "
-    "high-water 64 KiB + one 16 KiB chunk in flight in each) with slack; the check is that it does not grow with N",
+    "high-water 64 KiB + one 16 KiB chunk in flight in each) with slack; the check is that it grows neither with N "
+    "nor with a smaller piece size (the same constant is used for 512 B pieces)",
     "trio's stream has no user-space buffer (send_all blocks at once), asyncio's transport buffers up to its high-water mark",
+    "a client GOAWAY / a connection error closes the connection as far as the sender is concerned: a release is "
+    "demanded from the moment the server has read it, whether or not the close has completed on the wire",
 ]
-BOUNDS_DOC = {"quick": "M<=1, S<=2; N in {4,16,64}", "thorough": "M<=2, S<=3, trio R<=1"}
+BOUNDS_DOC = {
+    "quick": "family A: M<=1, S<=2 on N in {1,4,16} (N=64, and the no-op failed write under a transport stall: M=0, "
+             "S<=1; N=4 only none/eof; N=1,4,64 skipped where identical to N=16); family B: M=0, S<=1, N=16 "
+             "(h2/pause/GOAWAY: M<=1, S<=2); family C: M=0, S<=1, pieces 1000 B x 400, 512 B x 640",
+    "thorough": "family A: M<=2, S<=3, trio R<=1 (N=64: M<=1, S<=2); family B: M<=1, S<=2; family C: M=0, S<=2, "
+                "pieces 100 B x 2400, 512 B x 640, 1000 B x 400, 1023/1024 B x 320, 4096 B x 96",
+}
 BUDGET = {"quick": 300, "thorough": 1800}
 
 IWS = h2.settings.SettingCodes.INITIAL_WINDOW_SIZE
@@ -49,13 +79,36 @@ RELEASES = {
     "h2": ["none", "credit", "resume", "rst", "eof", "reset", "wfail", "terminate"],
     "ws/h2": ["none", "credit", "rst", "eof", "reset"],
 }
+# Family B: (carrier, pressure, releases).  "midpause": the peer stops reading once the response head is out.
+CLOSE_FAMILY = [
+    ("h2", "pause", ["goaway", "badframe"]),
+    ("h2", "midpause", ["none", "resume", "goaway", "badframe", "rst", "eof", "reset", "terminate"]),
+    ("h2", "win0", ["goaway", "badframe"]),
+    ("ws/h2", "win0", ["goaway", "badframe"]),
+    ("ws/h2", "midpause", ["none", "resume", "goaway", "reset"]),
+    ("h1", "pause", ["badreq"]),
+    ("h1", "midpause", ["none", "resume", "badreq", "eof", "reset", "terminate"]),
+    ("ws/h1", "pause", ["none", "resume", "eof", "reset", "terminate"]),
+    ("ws/h1", "midpause", ["none", "resume", "reset"]),
+]
+# Family C: piece size -> number of pieces (total well above BOUND, whatever the size)
+PIECES = {"quick": {1000: 400, 512: 640},
+          "thorough": {100: 2400, 512: 640, 1000: 400, 1023: 320, 1024: 320, 4096: 96}}
+PIECE_FAMILY = [
+    ("h1", "pause", ["none", "resume", "reset"]),
+    ("ws/h1", "pause", ["none", "resume", "reset"]),
+    ("h2", "pause", ["none", "resume", "goaway"]),
+    ("h2", "win0", ["none", "credit"]),
+    ("ws/h2", "win0", ["none", "credit"]),
+]
 # Events that do not lift the pressure and do not close the connection from the sender's point of view:
 # a client half-close while it still does not read, and the start of a graceful shutdown (in-flight requests
 # may finish).  They are explored for the safety clauses only; no release is demanded after them.
-# Likewise a failed write that never happens because nothing is written (window 0), and an RST_STREAM while the
-# *transport* is the bottleneck (the blocked write is below the stream layer).
+# Likewise a failed write that never happens because nothing is written (window 0), an RST_STREAM while the
+# *transport* is the bottleneck (the blocked write is below the stream layer), and a malformed pipelined
+# HTTP/1 request (it is not even parsed before the response in flight completes).
 NOT_A_RELEASE = {("pause", "eof"), ("pause", "terminate"), ("win0", "terminate"), ("pause", "wfail"),
-                 ("win0", "wfail"), ("pause", "rst")}
+                 ("win0", "wfail"), ("pause", "rst"), ("pause", "badreq")}
 
 
 def scenarios(tier: str) -> List[Any]:
@@ -70,50 +123,98 @@ def scenarios(tier: str) -> List[Any]:
                         continue
                     if tier == "quick" and n == 4 and rel not in ("none", "eof"):
                         continue
-                    out.append((engine, carrier, pressure, n, rel))
+                    if tier == "quick" and n != 16 and _same_as_n16(engine, pressure, rel):
+                        continue
+                    out.append((engine, carrier, pressure, n, rel, CHUNK))
+        for carrier, pressure, rels in CLOSE_FAMILY:
+            for rel in rels:
+                out.append((engine, carrier, pressure, 16, rel, CHUNK))
+        for piece, n in sorted(PIECES[tier].items()):
+            for carrier, pressure, rels in PIECE_FAMILY:
+                for rel in rels:
+                    out.append((engine, carrier, pressure, n, rel, piece))
     return out
 
 
+def _same_as_n16(engine: str, pressure: str, rel: str) -> bool:
+    """Quick tier: sizes whose executions cannot differ from N=16 (kept in the thorough tier all the same)."""
+    if (pressure, rel) == ("pause", "wfail"):
+        return True  # nothing is written while the peer does not read: the armed failure never happens
+    # trio's stream has no user-space buffer: with the peer stalled before the request the response HEAD is the
+    # write that blocks, the body is never submitted, and none of these events lets the response continue
+    return engine == "trio" and pressure == "pause" and rel in ("eof", "reset", "rst", "terminate")
+
+
+def family(params: Any) -> str:
+    engine, carrier, pressure, n, rel, piece = params
+    if piece != CHUNK:
+        return "C"
+    if pressure == "midpause" or carrier == "ws/h1" or rel in ("goaway", "badframe", "badreq"):
+        return "B"
+    return "A"
+
+
 def bounds(tier: str, params: Any) -> dict:
+    fam = family(params)
     if tier == "quick":
-        if params[3] == 64:  # 1 MiB responses are expensive: placement is explored on N=16, size on N=64
+        if params[1:5] == ("h2", "pause", 16, "goaway"):
+            return {"M": 1, "S": 2, "R": 0}  # the one server-side close whose placement among the writes is explored
+        if fam != "A" or params[3] == 64:  # 1 MiB responses are expensive: placement is explored on N=16, size on N=64
             return {"M": 0, "S": 1, "R": 0}
+        if params[2:5:2] == ("pause", "wfail"):
+            return {"M": 0, "S": 1, "R": 0}  # a no-op while the peer does not read (see _same_as_n16)
         return {"M": 1, "S": 2, "R": 0}
-    if params[3] == 64:
+    if fam == "C":
+        return {"M": 0, "S": 2, "R": 0}
+    if fam == "B" or params[3] == 64:
         return {"M": 1, "S": 2, "R": 0}
     return {"M": 2, "S": 3, "R": 1 if params[0] == "trio" else 0}
 
 
-def body_app(n: int) -> list:
-    prog: list = [("recv_body",), ("send", {"type": "http.response.start", "status": 200,
-                                            "headers": [(b"content-length", b"%d" % (n * CHUNK))]})]
+def body_app(n: int, piece: int = CHUNK, gate: bool = False, paced: bool = False) -> list:
+    # 16 KiB chunks go out under a content-length, small pieces as a stream (chunked on HTTP/1.1)
+    headers = [(b"content-length", b"%d" % (n * piece))] if piece == CHUNK else []
+    prog: list = [("recv_body",), ("send", {"type": "http.response.start", "status": 200, "headers": headers})]
+    if gate:
+        prog.append(("gate", "g"))
     for i in range(n):
-        prog.append(("send", {"type": "http.response.body", "body": bytes([65 + i % 26]) * CHUNK, "more_body": i < n - 1}))
+        prog.append(("send", {"type": "http.response.body", "body": bytes([65 + i % 26]) * piece, "more_body": i < n - 1}))
+        if paced:
+            prog.append(("sleep", 0))
     return prog
 
 
-def ws_app(n: int) -> list:
+def ws_app(n: int, piece: int = CHUNK, gate: bool = False, paced: bool = False) -> list:
     prog: list = [("recv",), ("send", {"type": "websocket.accept"})]
+    if gate:
+        prog.append(("gate", "g"))
     for i in range(n):
-        prog.append(("send", {"type": "websocket.send", "bytes": bytes([65 + i % 26]) * CHUNK}))
+        prog.append(("send", {"type": "websocket.send", "bytes": bytes([65 + i % 26]) * piece}))
+        if paced:
+            prog.append(("sleep", 0))
     prog.append(("send", {"type": "websocket.close", "code": 1000}))
     return prog
 
 
 SMALL = [("recv_body",), ("send", {"type": "http.response.start", "status": 200, "headers": [(b"content-length", b"3")]}),
          ("send", {"type": "http.response.body", "body": b"sib", "more_body": False})]
+BAD_FRAME = raw_h2_frame(0, 0, 0, b"x")  # DATA on stream 0: a connection error (RFC 9113 6.1)
+BAD_REQUEST = b"\x00\x01 / HTTP/1.1\r\n\r\n"  # pipelined behind the request being answered
 
 
 def build(params: Any) -> tuple:
-    engine, carrier, pressure, n, rel = params
+    engine, carrier, pressure, n, rel, piece = params
     conn0: dict = {"carrier": carrier}
-    pre: list = []
-    if pressure == "pause":
-        pre = [("pause", 0)]
+    mid = pressure == "midpause"
+    pre: list = [("pause", 0)] if pressure == "pause" else []
+    post: list = [("pause", 0), ("release", "g")] if mid else []
     if carrier == "h1":
         conn0["methods"] = [b"GET"]
-        client = pre + [("data", 0, h1_request(b"GET", b"/big"))]
-        apps = {"http:/big": body_app(n), "http:/other": SMALL}
+        client = pre + [("data", 0, h1_request(b"GET", b"/big"))] + post
+        apps = {"http:/big": body_app(n, piece, mid), "http:/other": SMALL}
+    elif carrier == "ws/h1":
+        client = pre + [("data", 0, ws_h1_handshake(b"/big"))] + post
+        apps = {"websocket": ws_app(n, piece, mid), "http:/other": SMALL}
     else:
         conn0.update(tls=True, alpn="h2", auto_ack=False)
         if pressure == "win0":
@@ -121,19 +222,23 @@ def build(params: Any) -> tuple:
         else:  # transport pressure only: take HTTP/2 flow control out of the picture
             conn0["h2_settings"] = {IWS: 2 ** 30}
             pre = [("cmd", 0, "winup", 0, 2 ** 30)] + pre
+        # Small pieces over HTTP/2: the application yields to the event loop after each (a ticker / event stream), so
+        # that every piece travels as its own small DATA frame instead of being coalesced in the stream buffer.
+        paced = piece != CHUNK
         if carrier == "h2":
             client = [("cmd", 0, "preface"), ("cmd", 0, "headers", SIB, h2_request_headers(b"GET", b"/sib"), True)] + pre + \
-                     [("cmd", 0, "headers", BIG, h2_request_headers(b"GET", b"/big"), True)]
-            apps = {"http:/big": body_app(n), "http:/sib": SMALL, "http:/other": SMALL}
+                     [("cmd", 0, "headers", BIG, h2_request_headers(b"GET", b"/big"), True)] + post
+            apps = {"http:/big": body_app(n, piece, mid, paced), "http:/sib": SMALL, "http:/other": SMALL}
         else:
-            client = [("cmd", 0, "preface"), ("cmd", 0, "ws_open", BIG), ("cmd", 0, "headers", SIB, h2_request_headers(b"GET", b"/sib"), True),
-                      ("cmd", 0, "headers", BIG, ws_h2_headers(b"/big"), False)]
-            apps = {"websocket": ws_app(n), "http:/sib": SMALL, "http:/other": SMALL}
+            client = [("cmd", 0, "preface"), ("cmd", 0, "ws_open", BIG), ("cmd", 0, "headers", SIB, h2_request_headers(b"GET", b"/sib"), True)] + \
+                     pre + [("cmd", 0, "headers", BIG, ws_h2_headers(b"/big"), False)] + post
+            apps = {"websocket": ws_app(n, piece, mid, paced), "http:/sib": SMALL, "http:/other": SMALL}
     big = 4 * 1024 * 1024
     release = {
         "none": [], "resume": [("resume", 0)], "eof": [("eof", 0)], "reset": [("reset", 0)], "wfail": [("wfail", 0)],
         "terminate": [("terminate",)], "rst": [("cmd", 0, "rst", BIG, 8)],
         "credit": [("cmd", 0, "winup", BIG, big), ("cmd", 0, "winup", 0, big)],
+        "goaway": [("cmd", 0, "goaway")], "badframe": [("data", 0, BAD_FRAME)], "badreq": [("data", 0, BAD_REQUEST)],
     }[rel]
     if rel == "credit" and pressure == "win0" and carrier == "h2":
         release = [("cmd", 0, "winup", SIB, big)] + release
@@ -156,6 +261,8 @@ def _delivered(w: Any) -> int:
     if cl.h2 is not None:
         st = cl.h2.streams.get(BIG)
         return 0 if st is None else len(st["body"])
+    if cl.ws is not None:
+        return sum(len(m[1]) for m in cl.ws.messages)
     if cl.h1 is not None and cl.h1.responses:
         return len(cl.h1.responses[0]["body"])
     return 0
@@ -184,15 +291,21 @@ def monitor(w: Any) -> None:
 
 
 def oracle(w: Any, params: Any) -> List[dict]:
-    engine, carrier, pressure, n, rel = params
+    engine, carrier, pressure, n, rel, piece = params
     out: List[dict] = []
     tag = f"{carrier}:{pressure}:{rel}"
+    if rel in ("goaway", "badframe"):
+        tag += f":{engine}"  # how a close is carried out is the worker's business: findings here are per engine
+    size = "" if piece == CHUNK else f":p{piece}"
+    h2carrier = carrier in ("h2", "ws/h2")
+    stalled = "pause" if pressure == "midpause" else pressure  # which layer holds the data back
     inst = _big(w)
     rec = w.conns[0]
     monitor(w)
     held = getattr(w, "max_held", 0)
     if held > BOUND:
-        out.append(V("held-exceeds-bound", f"{carrier}:{pressure}:n{n}", f"held {held} bytes > {BOUND} with N={n} ({n * CHUNK} B response)"))
+        out.append(V("held-exceeds-bound", f"{carrier}:{pressure}:n{n}{size}",
+                     f"held {held} bytes > {BOUND} with N={n} x {piece} B ({n * piece} B response)"))
     # siblings
     fired = [e for _, e in w.driver.fired]
     all_other = ("data", 1, h1_request(b"GET", b"/other")) in fired
@@ -200,44 +313,51 @@ def oracle(w: Any, params: Any) -> List[dict]:
         r1 = w.conns[1].client.h1.responses
         if not (r1 and r1[0]["complete"] and r1[0]["body"] == b"sib"):
             out.append(V("sibling-blocked", f"{tag}:other-connection", f"responses {r1}"))
-    if carrier != "h1":
+    if h2carrier:
         sib_requested = any(e[0] == "cmd" and e[2] == "headers" and e[3] == SIB for e in fired)
         st3 = rec.client.h2.streams.get(SIB)
         sib_credit = pressure != "win0" or any(e[0] == "cmd" and e[2] == "winup" and e[3] == SIB for e in fired)
         conn_alive = rec.closed_at is None and rec.lost_at is None and not rec.client_eof and not rec.client_reset
-        if sib_requested and conn_alive and pressure != "pause" and st3 is not None and st3["headers"] is None:
+        # once the client has said GOAWAY / has been found at fault nothing more is owed on the connection
+        conn_alive = conn_alive and not any(e in (("cmd", 0, "goaway"), ("data", 0, BAD_FRAME)) for e in fired)
+        if sib_requested and conn_alive and stalled != "pause" and st3 is not None and st3["headers"] is None:
             out.append(V("sibling-blocked", f"{tag}:stream3-no-headers", "sibling stream got no response head"))
         if sib_requested and conn_alive and sib_credit and not _transport_paused(w) and \
                 (st3 is None or not st3["ended"] or st3["body"] != b"sib"):
             out.append(V("sibling-blocked", f"{tag}:stream3", f"sibling stream state {st3}"))
     # release
-    not_release = (pressure, rel) in NOT_A_RELEASE
-    if carrier != "h1" and (pressure, rel) == ("pause", "eof"):
+    not_release = (stalled, rel) in NOT_A_RELEASE
+    if h2carrier and (stalled, rel) == ("pause", "eof"):
         # on HTTP/2 the application's send waits in the per-stream buffer, not in the transport: the peer's EOF
         # closes the connection as far as the protocol is concerned and must release it
         not_release = False
     released = not _pressure_on(w) and rel != "none" and not not_release
+    if pressure == "midpause" and ("release", "g") not in fired:
+        released = False  # the release came before the stall: the application is parked on the harness's own gate
     if inst is not None and released:
         pend = [s for s in inst.sends if s[3] == "pending"]
-        if pend and carrier != "h1" and (pressure, rel) == ("pause", "eof") and pend[0][2]["type"] not in ("http.response.body", "websocket.send"):
+        if pend and h2carrier and (stalled, rel) == ("pause", "eof") and pend[0][2]["type"] not in ("http.response.body", "websocket.send"):
             pend = []  # a response head waits in the transport write itself, which an EOF cannot release
         if pend:
-            out.append(V("send-never-released", tag, f"send #{inst.sends.index(pend[0])} of {len(inst.sends)} still pending; outcome={inst.outcome}"))
+            out.append(V("send-never-released", f"{tag}{size}", f"send #{inst.sends.index(pend[0])} of {len(inst.sends)} still pending; outcome={inst.outcome}"))
         if rel in ("credit", "resume") and not pend and rec.closed_at is None:
             src = [i for i, (nm, _) in enumerate(w.driver.sources) if nm == "release"][0]
             all_released = w.driver.pos[src] == len(w.driver.sources[src][1])
-            if all_released and _delivered(w) != n * CHUNK and carrier != "ws/h2":
-                out.append(V("not-delivered", tag, f"delivered {_delivered(w)} of {n * CHUNK}"))
+            if all_released and _delivered(w) != n * piece and carrier != "ws/h2":
+                out.append(V("not-delivered", f"{tag}{size}", f"delivered {_delivered(w)} of {n * piece}"))
     out.extend(internal_errors(w))
     return out
 
 
 def _transport_paused(w: Any) -> bool:
-    tr = getattr(w, "transports", {}).get(0)
-    if tr is not None:
-        return tr.peer_paused
-    st = getattr(w, "streams", {}).get(0)
-    return st is not None and st.peer_paused
+    # from the events, not from the fake transport: the trio engine un-pauses every stream by force at teardown
+    paused = False
+    for _, e in w.driver.fired:
+        if e == ("pause", 0):
+            paused = True
+        elif e == ("resume", 0):
+            paused = False
+    return paused
 
 
 execute = std_execute(build, oracle)
